@@ -120,7 +120,12 @@ theorem flatMap_leBytes_one (idx : List Nat) : idx.flatMap (leBytes 1) = idx := 
   | nil => rfl
   | cons a r ih => simp [List.flatMap_cons, leBytes, ih]
 
-theorem byteWidth_small {n : Nat} (h : n < 256) : byteWidth n = 1 := by simp [byteWidth, h]
+/-- the trinucleotide alphabet has 66 words, so its index dtype is one byte wide, whatever the code -/
+theorem byteWidth_words (seq : List Char) : byteWidth (mkNewGC newDna seq).words.length = 1 := by
+  have : (mkNewGC newDna seq).words.length = 66 := by
+    show (product3 newDna.chars ++ _).length = 66
+    decide
+  rw [this]; rfl
 
 /-! ## lifting the codon facts to sequences -/
 
@@ -157,21 +162,19 @@ theorem minus_chunks (seq : List Char)
       spec_translate_append _ _ _ (by rw [spec_rc_length]; exact hr3)]
     rfl
 
-/-- what `translate` computes on the plus strand when the index array is one byte wide -/
+/-- what `translate` computes on the plus strand (the index array is one byte wide) -/
 theorem new_translate_plus (seq : List Char)
     (h : ∀ a ∈ GCSpec.bases, ∀ b ∈ GCSpec.bases, ∀ c ∈ GCSpec.bases, plusOf seq a b c = GCSpec.aa seq [a, b, c])
-    (s : List Char) (start : Nat) (hs : Canon s) (hsmall : (s.length - start) / 3 < 256) :
+    (s : List Char) (start : Nat) (hs : Canon s) :
     newTranslate newDna seq s start false = GCSpec.translate seq (s.drop start) := by
   have hd1 : (if start ≠ 0 then s.drop start else s) = s.drop start := by
     split
     · rfl
     · rename_i h0; have : start = 0 := by omega
       simp [this]
-  have hw : byteWidth ((trunc3 (s.drop start)).length / 3) = 1 := by
-    apply byteWidth_small
-    rw [trunc3_length, List.length_drop]; omega
+  have hw := byteWidth_words seq
   show ((toIndices _ _ _ ((trunc3 (if start ≠ 0 then s.drop start else s)).map _)).flatMap
-      (leBytes (byteWidth ((trunc3 (if start ≠ 0 then s.drop start else s)).length / 3)))).map _ = _
+      (leBytes (byteWidth (mkNewGC newDna seq).words.length))).map _ = _
   rw [hd1, hw, flatMap_leBytes_one]
   have := plus_chunks seq h (trunc3 (s.drop start)) (canon_trunc3 (canon_drop hs start))
   rw [spec_translate_trunc3] at this
@@ -181,18 +184,16 @@ theorem new_translate_plus (seq : List Char)
 theorem new_translate_minus (seq : List Char)
     (h : ∀ a ∈ GCSpec.bases, ∀ b ∈ GCSpec.bases, ∀ c ∈ GCSpec.bases,
       minusOf seq a b c = GCSpec.aa seq [GCSpec.wc c, GCSpec.wc b, GCSpec.wc a])
-    (s : List Char) (start : Nat) (hs : Canon s) (hsmall : (s.length - start) / 3 < 256) :
+    (s : List Char) (start : Nat) (hs : Canon s) :
     newTranslate newDna seq s start true = GCSpec.translate seq (GCSpec.rc (trunc3 (s.drop start))) := by
   have hd1 : (if start ≠ 0 then s.drop start else s) = s.drop start := by
     split
     · rfl
     · rename_i h0; have : start = 0 := by omega
       simp [this]
-  have hw : byteWidth ((trunc3 (s.drop start)).length / 3) = 1 := by
-    apply byteWidth_small
-    rw [trunc3_length, List.length_drop]; omega
+  have hw := byteWidth_words seq
   show (((toIndices _ _ _ ((trunc3 (if start ≠ 0 then s.drop start else s)).map _)).flatMap
-      (leBytes (byteWidth ((trunc3 (if start ≠ 0 then s.drop start else s)).length / 3)))).map _).reverse = _
+      (leBytes (byteWidth (mkNewGC newDna seq).words.length))).map _).reverse = _
   rw [hd1, hw, flatMap_leBytes_one]
   exact minus_chunks seq h (trunc3 (s.drop start)) (canon_trunc3 (canon_drop hs start)) (trunc3_length_mod _)
 
@@ -298,12 +299,12 @@ theorem translate_no_gap_x (seq : List Char)
 /-- the new `translate` called with the sequence's own (most degenerate) alphabet -/
 theorem translateWith_degen (seq : List Char)
     (h : ∀ a ∈ GCSpec.bases, ∀ b ∈ GCSpec.bases, ∀ c ∈ GCSpec.bases, plusOf seq a b c = GCSpec.aa seq [a, b, c])
-    (s : List Char) (hs : Canon s) (hsmall : s.length / 3 < 256) :
+    (s : List Char) (hs : Canon s) :
     (mkNewGC newDna seq).translateWith (newDegenGapped newDna) s 0 false = GCSpec.translate seq s := by
   have hm : ∀ d : List Char, Canon d →
       d.map (monoIdx (newDegenGapped newDna)) = d.map (monoIdx (mkNewGC newDna seq).alpha) :=
     fun d hd => List.map_congr_left fun c hc => monoIdx_degen_canon c (hd c hc)
-  have := new_translate_plus seq h s 0 hs (by simpa using hsmall)
+  have := new_translate_plus seq h s 0 hs
   simp only [List.drop_zero] at this
   rw [← this]
   unfold newTranslate NewGC.translateWith
@@ -355,9 +356,9 @@ theorem new_stop_rules (seq : List Char)
       newGetItem newDna seq [a, b, c] = GCSpec.aa seq [a, b, c])
     (hng : ∀ a ∈ GCSpec.bases, ∀ b ∈ GCSpec.bases, ∀ c ∈ GCSpec.bases,
       GCSpec.aa seq [a, b, c] ≠ '-' ∧ GCSpec.aa seq [a, b, c] ≠ 'X')
-    (s : List Char) (hs : Canon s) (hne : s ≠ []) (hsmall : s.length / 3 < 256) (io is_ ts : Bool) :
+    (s : List Char) (hs : Canon s) (hne : s ≠ []) (io is_ ts : Bool) :
     newSeqGetTranslation newDna seq s io is_ ts = outcomeToExcept (GCSpec.getTranslation seq s io is_ ts) := by
-  have htr := fun (d : List Char) (hd : Canon d) (hsm : d.length / 3 < 256) => translateWith_degen seq hplus d hd hsm
+  have htr := fun (d : List Char) (hd : Canon d) => translateWith_degen seq hplus d hd
   have hnox := translate_no_gap_x seq hng
   have hnom : ∀ d : List Char, Canon d → '-' ∉ GCSpec.translate seq d ∧ 'X' ∉ GCSpec.translate seq d := by
     intro d hd
@@ -367,33 +368,32 @@ theorem new_stop_rules (seq : List Char)
   cases ts
   · -- no trimming
     simp only [Bool.false_eq_true, if_false, Bool.false_and, pure, Except.pure, bind, Except.bind,
-      htr s hs hsmall, (hnox s hs).1, (hnox s hs).2, Bool.or_false, Bool.and_false]
+      htr s hs, (hnox s hs).1, (hnox s hs).2, Bool.or_false, Bool.and_false]
     cases is_ <;> by_cases h : '*' ∈ GCSpec.translate seq s <;>
       simp [h, outcomeToExcept, throw, throwThe, MonadExceptOf.throw]
   · rw [trim_stop_spec seq _ hget s hs hne]
     by_cases h3 : s.length % 3 = 0
     · obtain ⟨hl, hsplit⟩ := translate_split_last seq s h3 hne
       have htake : Canon (s.take (s.length - 3)) := canon_take hs _
-      have hsm2 : (s.take (s.length - 3)).length / 3 < 256 := by rw [List.length_take]; omega
       have hdl : GCSpec.translate seq (s.take (s.length - 3)) = (GCSpec.translate seq s).dropLast := by
         obtain ⟨a, b, c, habc, _, _, _⟩ := lastN3_canon hs hl
         rw [hsplit, habc]; simp [GCSpec.translate]
       by_cases hstop : (GCSpec.translate seq s).getLast? = some '*'
-      · simp only [h3, hstop, if_true, bind, Except.bind, htr _ htake hsm2, hdl,
+      · simp only [h3, hstop, if_true, bind, Except.bind, htr _ htake, hdl,
           hdl ▸ (hnox _ htake).1, hdl ▸ (hnox _ htake).2]
         cases io <;> cases is_ <;> by_cases h : '*' ∈ (GCSpec.translate seq s).dropLast <;>
           simp [h, outcomeToExcept, throw, throwThe, MonadExceptOf.throw, pure, Except.pure,
             hdl ▸ (hnom _ htake).1, hdl ▸ (hnom _ htake).2]
-      · simp only [h3, hstop, if_true, if_false, bind, Except.bind, htr s hs hsmall]
+      · simp only [h3, hstop, if_true, if_false, bind, Except.bind, htr s hs]
         cases io <;> cases is_ <;> by_cases h : '*' ∈ GCSpec.translate seq s <;>
           simp [h, outcomeToExcept, throw, throwThe, MonadExceptOf.throw, pure, Except.pure,
             (hnom s hs).1, (hnom s hs).2]
     · cases io
       · simp [h3, outcomeToExcept, bind, Except.bind]
-      · simp only [h3, if_false, Bool.true_eq_false, bind, Except.bind, htr s hs hsmall]
+      · simp only [h3, if_false, Bool.true_eq_false, bind, Except.bind, htr s hs]
         cases is_ <;> by_cases h : '*' ∈ GCSpec.translate seq s <;>
           simp [h, h3, outcomeToExcept, throw, throwThe, MonadExceptOf.throw, pure, Except.pure,
-            (hnom s hs).1, (hnom s hs).2, htr s hs hsmall]
+            (hnom s hs).1, (hnom s hs).2, htr s hs]
 
 theorem old_seq_codons_spec (seq : List Char)
     (h : ∀ a ∈ GCSpec.bases, ∀ b ∈ GCSpec.bases, ∀ c ∈ GCSpec.bases, oldGetItem seq [a, b, c] = GCSpec.aa seq [a, b, c])
